@@ -31,10 +31,13 @@ def pretty(p):
 
 
 def wellformed(ops):
-    """Unlock / CvWait only on a mutex the actor holds (statically exact: ownership only changes by the actor's own ops)."""
+    """Unlock / CvWait only on a mutex the actor holds, no lock of a mutex already held (statically exact: ownership only
+    changes by the actor's own ops)."""
     held = set()
     for c, a, b in ops:
         if c == LOCK:
+            if a in held:      # self-relock of a non-recursive mutex: see the C04 remark in C14's assumptions
+                return False
             held.add(a)
         elif c == UNLOCK:
             if a not in held:
@@ -124,6 +127,43 @@ def gen_prog(rng, na_max=3, nops_max=6, sleeps=True, mail=True, nblocks=None):
             "actors": [(rng.randrange(5), ops) for ops in acts]}
 
 
+def gen_prog_ext(rng, na_max=4, nops_max=7):
+    """gen_prog + the remaining activity kinds of C01/C02: exec, yield, daemons, on_exit callbacks, kill, join,
+    suspend/resume.  Aimed at: several daemons with on_exit callbacks still alive when the last regular actor ends, actors
+    killed while blocked or while holding a mutex, coinciding dates (sleeps are multiples of 1/8 s)."""
+    p = gen_prog(rng, na_max=na_max, nops_max=nops_max)
+    acts = [list(ops) for _, ops in p["actors"]]
+    na = len(acts)
+    ins = lambda a, op: acts[a].insert(rng.randint(0, len(acts[a])), op)
+    for a in range(na):
+        for _ in range(rng.choice([0, 0, 1, 2])):
+            ins(a, rng.choice([(EXEC, rng.choice([1, 2, 5, 10]), 0), (YIELD, 0, 0), (SLEEP, rng.choice([1, 2, 4]), 0)]))
+    others = lambda a: [x for x in range(na) if x != a]
+    if rng.random() < 0.4:
+        a = rng.randrange(na)
+        acts[a] += [(SLEEP, rng.choice([1, 2, 4, 8]), 0)] * rng.choice([0, 1]) + [(KILL, rng.choice(others(a)), 0)]
+    if rng.random() < 0.3:
+        a = rng.randrange(na)
+        ins(a, (JOIN, rng.choice(others(a)), 0))
+    if rng.random() < 0.3:
+        a = rng.randrange(na)
+        t = rng.choice(others(a))
+        acts[a] += [(SUSPEND, t, 0), (SLEEP, rng.choice([1, 2, 4]), 0), (RESUME, t, 0)][:rng.choice([1, 3, 3])]
+    daemons = [a for a in range(na) if rng.random() < 0.45]
+    if len(daemons) == na:
+        daemons.pop()
+    for a in daemons:
+        if rng.random() < 0.7:   # keep it alive until the regular actors are done
+            acts[a].append(rng.choice([(SLEEP, 400, 0), (SLEEP, 800, 0)]))
+        acts[a].insert(0, (DAEMON, 0, 0))
+    for a in range(na):
+        if a in daemons or rng.random() < 0.35:
+            for k in range(rng.choice([1, 1, 2])):
+                acts[a].insert(0, (ONEXIT, 10 * a + k, 0))
+    p["actors"] = [(h, ops) for (h, _), ops in zip(p["actors"], acts)]
+    return p
+
+
 def is_timed(p):
     return any(c in TIMED for _, ops in p["actors"] for c, _, _ in ops)
 
@@ -132,7 +172,7 @@ def parse_obs(line):
     """-> dict(dl, end, actors=[(pc, status, [(i, r, clk)])], sems, tr=[(a,i)], ex=[(a,tag,failed,clk)]) or dict(crash=...)"""
     if not line.startswith("ok "):
         return {"crash": line}
-    head, acts, sem, tr, ex = [x.strip() for x in line.split("|")]
+    head, acts, sem, tr, ht, ex, gx = [x.strip() for x in line.split("|")]
     h = dict(t.split("=") for t in head.split()[1:])
     actors = []
     for a in acts.split(";"):
@@ -145,12 +185,13 @@ def parse_obs(line):
         actors.append((int(pc), st, recs))
     sems = [int(x) for x in sem[len("sem="):].split(",") if x]
     trace = [tuple(int(y) for y in x.split(".")) for x in tr[len("tr="):].split(",") if x]
+    handled = [tuple(int(y) for y in x.split(".")) for x in ht[len("ht="):].split(",") if x]
     exits = []
     for x in [x for x in ex[len("ex="):].split(",") if x]:
         atf, clk = x.split("@")
         a, tag, failed = atf.split(".")
         exits.append((int(a), int(tag), int(failed), clk))
-    return {"dl": int(h["dl"]), "end": h["end"], "actors": actors, "sems": sems, "tr": trace, "ex": exits}
+    return {"dl": int(h["dl"]), "end": h["end"], "actors": actors, "sems": sems, "tr": trace, "ht": handled, "ex": exits, "gx": gx[len("gx="):]}
 
 
 def model_obs_of_impl(o):
